@@ -3,7 +3,7 @@ From Coq Require Import List ZArith Bool.
 From Coq.Strings Require Import Byte.
 Import ListNotations.
 From Zap Require Import Base.Wire Enc.Bytes Enc.Fields Enc.JsonEnc Enc.JsonParse Enc.WireEnc Enc.JsonAst Enc.Wf Enc.Console
-  Enc.Parse3 Enc.Parse4 Enc.ConsoleProof C16.Model C16.Proofs.
+  Enc.Parse3 Enc.Parse4 Enc.ConsoleProof C16.Model C16.Conc C16.ConcProofs C16.Proofs.
 
 (* The console encoder (columns collected in a slice encoder, "separator only if the line is
    non-empty", context rendered by a spaced JSON encoder clone with namespaces closed) produces
@@ -27,6 +27,49 @@ Theorem C16_ctx_members : forall c, q_layout_escaped c = true -> forall ctxs fs,
   tpre (TObj (close (ev_flds c fs (ev_with_chain c ctxs)))).
 Proof. exact ctx_members. Qed.
 Print Assumptions C16_ctx_members.
+
+(* ---- concurrent use ----
+   EncodeEntry is called without a lock, and every call borrows its column collector from a process-wide pool.
+   In the machine of C16/Conc.v (collectors are heap objects passed by reference through the pool; a call is a
+   sequence of atomic steps; the schedule decides who moves next AND which pooled collector a Get returns)
+   the line of a finished call is the sequential model's line of ITS OWN (configuration, context, entry,
+   fields) - for every assignment of calls to goroutines, every number of goroutines and every schedule: no
+   interleaved other encode can change it. *)
+Theorem C16_interleaving_independent : forall (jobs : nat -> job) (sched : list (nat * nat)) (t : nat) (out : bytes),
+  pcs (run jobs true sched init) t = PDone out ->
+  out = console_encode (j_cfg (jobs t)) (j_ctx (jobs t)) (j_ent (jobs t)) (j_fs (jobs t)).
+Proof. exact conc_safe. Qed.
+Print Assumptions C16_interleaving_independent.
+
+(* hence the line is a FUNCTION of the call alone: equal calls, made by any goroutines in any two runs with
+   any other traffic, return equal bytes *)
+Theorem C16_line_function : forall jobs1 jobs2 sched1 sched2 t1 t2 out1 out2,
+  jobs1 t1 = jobs2 t2 ->
+  pcs (run jobs1 true sched1 init) t1 = PDone out1 ->
+  pcs (run jobs2 true sched2 init) t2 = PDone out2 ->
+  out1 = out2.
+Proof. exact line_function. Qed.
+Print Assumptions C16_line_function.
+
+(* not vacuous: after any schedule, every call can be run to completion *)
+Theorem C16_conc_completes : forall jobs rf sched t,
+  exists more out, pcs (run jobs rf (sched ++ more) init) t = PDone out.
+Proof. exact conc_completes. Qed.
+Print Assumptions C16_conc_completes.
+
+(* and not true by construction: with the two statements of putSliceEncoder swapped (the collector is
+   published before it is truncated) a schedule exists under which a call returns another entry's columns *)
+Theorem C16_publish_before_reset_refuted :
+  exists jobs sched t out, pcs (run jobs false sched init) t = PDone out /\ bytes_eqb out (job_line (jobs t)) = false.
+Proof. exact publish_before_reset_refuted. Qed.
+Print Assumptions C16_publish_before_reset_refuted.
+
+(* the rows of the harness's concurrent phase are judged by the same oracle: a line produced for wire case i
+   under any schedule is accepted by spec i *)
+Theorem C16_conc_wire : forall jobs sched t out i, wf i = true -> jobs t = case_job i ->
+  pcs (run jobs true sched init) t = PDone out -> spec i (SL [SB out]) = true.
+Proof. exact conc_wire_spec. Qed.
+Print Assumptions C16_conc_wire.
 
 Theorem C16_wire : forall i, wf i = true -> spec i (model i) = true.
 Proof. exact wire_thm. Qed.
